@@ -62,7 +62,13 @@ impl Check for NftVotes {
     type Cfg = Cfg;
     type Step = Step;
     fn id(&self) -> &'static str { "nft_votes" }
-    fn runs(&self, tier: Tier) -> u64 { if tier == Tier::Quick { 400 } else { 30_000 } }
+    fn runs(&self, tier: Tier) -> u64 {
+        if tier == Tier::Quick {
+            1200
+        } else {
+            30000
+        }
+    }
     fn components(&self) -> serde_json::Value { serde_json::json!({"real": ["non_fungible::votes::NonFungibleVotes", "governance::votes::*", "NFT Base + sequential ids"], "stub": ["Wallet"]}) }
     fn clock_step(&self, n: u32) -> Option<Step> {
         Some(Step::Advance { n })
